@@ -475,6 +475,28 @@ impl FusionVisitor for IdentityFusion {
         let &[Some(output_id)] = op_node.output_ids() else {
             return Err(FusionError::CheckFailed("wrong output count"));
         };
+
+        // For binary identities, the output shape is the result of broadcasting
+        // `x` with the constant. Removing the operator is only valid if that is
+        // the same as the shape of `x`, which requires that the (single-element)
+        // constant does not have a higher rank than `x`.
+        if let &[Some(lhs), Some(rhs)] = op_node.input_ids() {
+            let const_id = if lhs == input_id { rhs } else { lhs };
+            let const_rank = graph
+                .get_rank(const_id)
+                .ok_or(FusionError::CheckFailed("unknown constant rank"))?;
+            if const_rank > 0 {
+                let input_rank = graph
+                    .get_rank(input_id)
+                    .ok_or(FusionError::CheckFailed("unknown input rank"))?;
+                if const_rank > input_rank {
+                    return Err(FusionError::CheckFailed(
+                        "constant has higher rank than input",
+                    ));
+                }
+            }
+        }
+
         Ok(Fusion::Identity {
             input_id,
             output_id,
